@@ -88,6 +88,16 @@ var c06ExprFaults = []faultKind{
 	{"percent-delete-key", FnDelete + "({a: 1}, \"z%d%s%!\")"},
 	{"percent-negate-string", "(-\"50%\")"},
 	{"percent-undefined-call", "h1(nx % 3)"},
+	// callees that are themselves calls
+	{"non-callable-chained", "h1(5)(3)"},
+	{"arity-chained", "h1(h2)(1)"},
+	{"builtin-fails-chained", "h1(" + FnLen + ")(5)"},
+	{"non-callable-index", "[1, 2][0](3)"},
+	{"non-callable-property", "obj0.k(1)"},
+	// diagnostics that would quote very long program text
+	{"undefined-long-name", "nx_\u0995\u09b2\u09ae\u0995\u09b2\u09ae\u0995\u09b2\u09ae\u0995\u09b2\u09ae\u0995\u09b2\u09ae\u0995\u09b2\u09ae\u0995\u09b2\u09ae\u0995\u09b2\u09ae\u0995\u09b2\u09ae\u0995\u09b2\u09ae\u0995\u09b2\u09ae\u0995\u09b2\u09ae\u0995\u09b2\u09ae\u0995\u09b2\u09ae\u0995\u09b2\u09ae\u0995\u09b2\u09ae\u0995\u09b2\u09ae\u0995\u09b2\u09ae\u0995\u09b2\u09ae\u0995\u09b2\u09ae\u0995\u09b2\u09ae\u0995\u09b2\u09ae\u0995\u09b2\u09ae\u0995\u09b2\u09ae\u0995\u09b2\u09ae\u0995\u09b2\u09ae\u0995\u09b2\u09ae\u0995\u09b2\u09ae\u0995\u09b2\u09ae\u0995\u09b2\u09ae\u0995\u09b2\u09ae\u0995\u09b2\u09ae\u0995\u09b2\u09ae\u0995\u09b2\u09ae\u0995\u09b2\u09ae\u0995\u09b2\u09ae\u0995\u09b2\u09ae\u0995\u09b2\u09ae\u0995\u09b2\u09ae\u0995\u09b2\u09ae"},
+	{"type-mismatch-long-string", "(-\"" + strings.Repeat("\u09ac\u09be\u0995\u09cd\u09af ", 60) + "\")"},
+	{"missing-property-long-name", "obj0.nx_\u0995\u09b2\u09ae\u0995\u09b2\u09ae\u0995\u09b2\u09ae\u0995\u09b2\u09ae\u0995\u09b2\u09ae\u0995\u09b2\u09ae\u0995\u09b2\u09ae\u0995\u09b2\u09ae\u0995\u09b2\u09ae\u0995\u09b2\u09ae\u0995\u09b2\u09ae\u0995\u09b2\u09ae\u0995\u09b2\u09ae\u0995\u09b2\u09ae\u0995\u09b2\u09ae\u0995\u09b2\u09ae\u0995\u09b2\u09ae\u0995\u09b2\u09ae\u0995\u09b2\u09ae\u0995\u09b2\u09ae\u0995\u09b2\u09ae\u0995\u09b2\u09ae\u0995\u09b2\u09ae\u0995\u09b2\u09ae\u0995\u09b2\u09ae\u0995\u09b2\u09ae\u0995\u09b2\u09ae\u0995\u09b2\u09ae\u0995\u09b2\u09ae\u0995\u09b2\u09ae\u0995\u09b2\u09ae\u0995\u09b2\u09ae\u0995\u09b2\u09ae\u0995\u09b2\u09ae\u0995\u09b2\u09ae\u0995\u09b2\u09ae\u0995\u09b2\u09ae\u0995\u09b2\u09ae\u0995\u09b2\u09ae\u0995\u09b2\u09ae"},
 }
 
 var c06StmtFaults = []string{"redecl", "redecl-list", "redecl-nil", "redecl-uninit", "redecl-noreturn", "redecl-param", "redecl-nil-param", "redecl-funcname", "redecl-self", "shadow-builtin-call",
@@ -771,6 +781,7 @@ func (b *skBuilder) after(s Src, depth int, inFunc bool) []*skNode {
 type c06Plan struct {
 	lead  int // blank / comment lines before the first statement of the file
 	tty   int // which standard streams look like terminals
+	cyclic bool // the prelude also defines cyc (an object containing itself) and carr (an array containing itself)
 	chain []string
 	fault skFault
 	decoy bool
@@ -849,6 +860,8 @@ func c06Render(prog []*skNode, twin bool) (text string, faultLine int, strip []s
 	return c06RenderLead(prog, twin, 0)
 }
 
+var c06CyclicPrelude bool
+
 func c06RenderLead(prog []*skNode, twin bool, lead int) (text string, faultLine int, strip []string) {
 	e := &skEmit{twin: twin}
 	for i := 0; i < lead; i++ {
@@ -860,6 +873,12 @@ func c06RenderLead(prog []*skNode, twin bool, lead int) (text string, faultLine 
 	}
 	for _, l := range c06Prelude() {
 		e.add(0, l)
+	}
+	if c06CyclicPrelude {
+		e.add(0, fmt.Sprintf("%s cyc = {a: 1};", KwVar))
+		e.add(0, "cyc.self = cyc;")
+		e.add(0, fmt.Sprintf("%s carr = [1, 2];", KwVar))
+		e.add(0, "carr[0] = carr;")
 	}
 	// the planted fault is the first fault node in source order; a "second"
 	// fault comes later and must not overwrite faultLine
@@ -915,6 +934,8 @@ func c06Sig(plan c06Plan) string {
 
 func c06Case(plan c06Plan, s Src, depth int, tag string) *Case {
 	prog := c06Build(plan, s, depth)
+	c06CyclicPrelude = plan.cyclic
+	defer func() { c06CyclicPrelude = false }()
 	twinText, _, _ := c06RenderLead(prog, true, plan.lead)
 	// rendered last: emit assigns n.Line, the non-twin lines are the ones the oracle needs
 	text, fl, strip := c06RenderLead(prog, false, plan.lead)
@@ -1022,6 +1043,19 @@ func c06Systematic(tier string) []*Case {
 			plan.fault.Wraps = []string{c06Wraps[i%len(c06Wraps)]}
 		}
 		out = append(out, c06Case(plan, zeroSrc{}, 0, "table:operator-misuse"))
+	}
+	// faults whose operand is a value that contains itself (anything that renders the
+	// operand for the diagnostic must cope): run in processes of their own
+	for i, expr := range []string{"(-cyc)", "(cyc + 1)", "(1 - cyc)", "(cyc < 1)", "(~cyc)", "(1 & cyc)", FnSqrt + "(cyc)", FnLen + "(cyc)", FnMax + "(cyc, 1)", "cyc()", "cyc[0]", "(carr * 2)", FnAbs + "(carr)"} {
+		plan := c06Plan{fault: skFault{Kind: "cyclic-operand", Expr: expr, Ctx: []string{"print", "expr", "var"}[i%3], Probe: "clock"}, cyclic: true}
+		if i%2 == 1 {
+			plan.chain = []string{"func-print"}
+		}
+		cs := c06Case(plan, zeroSrc{}, 0, "table:cyclic-operand")
+		for r := range cs.Runs {
+			cs.Runs[r].Role = "fresh-process:" + cs.Runs[r].Role
+		}
+		out = append(out, cs)
 	}
 	// programs that perform no invalid operation: no diagnostic, status 0
 	cleanProgs := map[string]string{
